@@ -181,6 +181,10 @@ func PreferredGoType(dt datatype.DataType) (reflect.Type, error) {
 		if err != nil {
 			return nil, err
 		}
+		if !keyType.Comparable() {
+			// e.g. map<blob,int>: []byte cannot be the key type of a Go map, reflect.MapOf would panic
+			return nil, errCannotFindGoType(dt)
+		}
 		return reflect.MapOf(ensureNillable(keyType), ensureNillable(valueType)), nil
 	}
 	return nil, errCannotFindGoType(dt)
